@@ -148,7 +148,7 @@ def commit(repo, run, m):
                                              "target or never reach it")
 
 
-def _final_predicate(run, rid, m, c, final_if):
+def _final_predicate(run, rid, m, c, final_if, rule_id="C03.2"):
     """the branch that clamps must be taken whenever |self.dt| > |tf - t| (and only then)."""
     test = final_if.test
     cmps = [n for n in ast.walk(test) if isinstance(n, ast.Compare)]
@@ -166,7 +166,7 @@ def _final_predicate(run, rid, m, c, final_if):
     # the comparison must be a conjunct of the test on the clamping side (other conjuncts may only restrict to finite targets)
     run.judged(rid, "final-step predicate: %s" % src(test)[:140], ok=ok)
     if not ok:
-        run.report("C03.2", DS, test, "the test that clamps the last step is not `|self.dt| > |tf - t[counter]|`: a step can overshoot the target, or a "
+        run.report(rule_id, DS, test, "the test that clamps the last step is not `|self.dt| > |tf - t[counter]|`: a step can overshoot the target, or a "
                                       "short step can be stretched to it")
 
 
